@@ -30,6 +30,10 @@ def conflicts(a, b):
         return False
     if a.rw == 'R' and b.rw == 'R':
         return False
+    if a.part == 'A' and b.part == 'A':
+        return False          # operations on a std::atomic never race with each other
+    if 'A' in (a.part, b.part) and 'C' in (a.part, b.part):
+        return False          # an atomic object is only ever accessed through atomic operations
     if a.part == 'S' and a.rw == 'W' or b.part == 'S' and b.rw == 'W':
         return True
     return a.part == b.part
@@ -92,6 +96,10 @@ def collect(an, cm, roles, m):
                 f = field_of(e[1])
                 if f and f != 'm_lock':
                     accs.append(Access(f, 'S', 'W', held > 0, e[5], m, '%s.%s()' % (show(e[1]), e[2]), in_loop))
+            elif k == 'atomic':
+                f = field_of(e[1])
+                if f and f != 'm_lock':
+                    accs.append(Access(f, 'A', e[6], held > 0, e[5], m, '%s.%s()' % (show(e[1]), e[2]), in_loop))
             elif k in ('iota',):
                 f = field_of(e[1])
                 if f:
@@ -150,6 +158,14 @@ def analyse(an, res_c06, res_c07):
                         res_c06.violate(Violation('C06', 'L1-ONE-REGION', cm.name, mname, d, a.site,
                                                   '%s: mutable container state is touched outside the critical section, so the '
                                                   'operation is not a single atomic step' % a.what))
+            if res_c06 is not None:
+                # an atomic that takes part in what operations return is state like any other: outside the region it splits the step
+                for a in accs:
+                    if a.part == 'A' and not a.locked and a.field not in roles.inert:
+                        res_c06.ob('L1-ONE-REGION', ok=False)
+                        res_c06.violate(Violation('C06', 'L1-ONE-REGION', cm.name, mname, 'atomic %s used outside the critical section' % a.field, a.site,
+                                                  '%s: results depend on this atomic, so the operation is not a single atomic step' % a.what))
+                        break
             if res_c06 is not None:
                 # L1: one region per path, never re-taken, not inside a loop
                 ok = facts['max_regions'] <= 1 and not facts['lock_in_loop']
